@@ -10,6 +10,7 @@ import (
 	"sort"
 	"strconv"
 	"strings"
+	"sync"
 	"testing"
 	"time"
 
@@ -566,8 +567,88 @@ func execC15Backlog(c c15Case) Outcome {
 	return Outcome{NT: c.BadAt > 0, Labels: []string{"kind:malformed_backlog"}}
 }
 
+// execC15BacklogHeld: the processor is busy writing an event (the sink stalls)
+// while the ingester queues a well-formed record and then a malformed line
+// behind it. The malformed line must be reported, and the record queued before
+// it must not vanish: its event is written before Read returns.
+func execC15BacklogHeld(c c15Case) Outcome {
+	if _, perr := auparse.ParseLogLine(c.BadLine); perr == nil {
+		return Outcome{Skip: "line_accepted_by_auparse"}
+	}
+	if strings.TrimSpace(c.BadLine) == "" {
+		return Outcome{Skip: "empty_line"}
+	}
+	rec := &Rec{}
+	gate := make(chan struct{})
+	stalled := make(chan struct{})
+	var once sync.Once
+	rec.Hook = func() {
+		first := false
+		once.Do(func() { first = true; close(stalled) })
+		if first {
+			<-gate
+		}
+	}
+	audits := make(chan string, 10000)
+	logins := make(chan common.RemoteUserLogin)
+	ctx, cancel := context.WithCancel(context.Background())
+	defer cancel()
+	a := auditd.Auditd{Audits: audits, Logins: logins, EventW: newWriter(rec), Health: health.NewHealth()}
+	done := make(chan error, 1)
+	go func() { done <- a.Read(ctx) }()
+	release := func() {
+		select {
+		case <-gate:
+		default:
+			close(gate)
+		}
+	}
+	defer release()
+	select {
+	case logins <- loginFor(0, hop{K: "login", P: 1}):
+	case <-time.After(10 * time.Second):
+		panic(&infraError{"login not accepted"})
+	}
+	// the session's LOGIN record: its UserAction is the first write, which stalls
+	for _, l := range audEventForOp(1, hop{K: "open", S: 1, P: 1}).Lines {
+		audits <- l
+	}
+	audits <- audEventForOp(2, hop{K: "ev", S: 1, T: "USER_ACCT"}).Lines[0] // completes the LOGIN event in every reassembler mode
+	select {
+	case <-stalled:
+	case <-time.After(3 * time.Second):
+		return Outcome{Skip: "first_event_not_written_before_the_burst"}
+	}
+	// queued while the processor is busy: one more complete record of the session, then the malformed line
+	n := 1 + c.BadAt%3
+	for i := 0; i < n; i++ {
+		audits <- audEventForOp(3+i, hop{K: "ev", S: 1, T: "USER_START"}).Lines[0]
+	}
+	audits <- c.BadLine
+	time.Sleep(2 * time.Millisecond)
+	release()
+	select {
+	case err := <-done:
+		if err == nil || !strings.Contains(err.Error(), c.BadLine) {
+			return fail("malformed line %q queued behind %d good records: Read returned %v, want an error that identifies the offending line", c.BadLine, n, err)
+		}
+	case <-time.After(5 * time.Second):
+		cancel()
+		<-done
+		return fail("malformed line %q queued behind %d good records while the processor was busy: Read kept running", c.BadLine, n)
+	}
+	// LOGIN + USER_ACCT + n USER_START records were all queued before the malformed line
+	if got := rec.Len(); got != 2+n {
+		return fail("malformed line %q queued behind good records: %d of the %d events of the records queued BEFORE it were written (records vanished without being named by the error)", c.BadLine, got, 2+n)
+	}
+	return Outcome{NT: true, Labels: []string{"kind:malformed_backlog_held"}}
+}
+
 func execC15(c c15Case) Outcome {
 	if c.Kind == "malformed_backlog" {
+		if c.BadAt%2 == 1 {
+			return execC15BacklogHeld(c)
+		}
 		return execC15Backlog(c)
 	}
 	if c.Kind == "encoder_fail_during_login" {
